@@ -155,12 +155,30 @@ def np_apply(op: str, a: list[Any], p: dict[str, Any], mca: MCA) -> Any:
             r = _BIN_NP[op](a[0], a[1])
             if op in ("truediv", "pow", "arctan2") or (
                     op in ("add", "sub", "mul") and np.asarray(r).dtype.kind in "fc"):
-                r = mca.p(r)
+                extra = None
+                ra = np.asarray(r)
+                if ra.dtype.kind == "c" and op in ("mul", "truediv") and mca.rng is not None:
+                    # each part of a complex product/quotient is a sum of real products that
+                    # may cancel (and NumPy's SIMD loops use FMA, C code does not): the
+                    # rounding error is relative to |x||y|, not to the part itself
+                    u = np.finfo(ra.dtype).eps
+                    mag = np.abs(np.asarray(a[0], dtype=ra.dtype)) * (
+                        np.abs(np.asarray(a[1], dtype=ra.dtype)) if op == "mul" else
+                        1.0 / np.maximum(np.abs(np.asarray(a[1], dtype=ra.dtype)),
+                                         np.finfo(ra.dtype).tiny))
+                    extra = np.where(np.isfinite(mag), 2 * u * mag, 0.0) * (1 + 1j)
+                r = mca.p(r, extra)
             return r
         if op in _UN_NP:
             r = _UN_NP[op](a[0])
             if op in INEXACT_UNARY:
                 r = mca.p(r)
+            if op == "isnan" and not getattr(mca, "pure_numpy", False):
+                # pytato declares isnan as int32 (C03 known finding); like the reduction
+                # dtypes below, the non-pure shadow follows the declared dtype so that
+                # dtype-only conventions do not turn into value alarms downstream
+                # (sum(isnan(x)) counts, it is not a logical or)
+                r = np.asarray(r).astype(np.int32)
             return r
         if op == "where":
             return np.where(a[0], a[1], a[2])
